@@ -177,7 +177,11 @@ def check_func(src):
     def counted(n):
         return Coverage.loop_compat(n)[0]
     body = f.body
-    info["spec"] = spec_stmt(body, counted)
+    try:
+        info["spec"] = spec_stmt(body, counted)
+    except Exception as e:          # loop_compat raises on some for-headers (init_vars): not this property's business
+        info["spec"] = None
+        info["exc"] = vlib.exc_sig(e)
     try:
         visits, dinfo = vlib.with_timeout(S.observe_dispatch, 10, f)
     except vlib.CaseTimeout:
@@ -259,7 +263,7 @@ def check_func(src):
              ["effect-ignored", cd, k], "every effect site dispatched to a rule", "no rule applied")
     # 3. the independent grammar must tell the same story (effect-free skipped statements aside)
     hard = [x for x in fails if x["sig"][1] != "covered-but-skipped-noeffect"]
-    if not dinfo["early_exit"] and not dinfo["exc"]:
+    if not dinfo["early_exit"] and not dinfo["exc"] and info["spec"] is not None:
         if info["spec"] and hard:
             fail("oracle: spec grammar calls the function modelable but the analysis skipped / ignored something", ["oracle-disagreement", "spec-modelable"],
                  "agreement", [x["sig"] for x in hard][:3])
